@@ -314,6 +314,10 @@ def fixed_corpus():
     # between 2 x chars and 2 x bytes: the winner must not depend on the utf8 mode
     out.append(Def([L('token', 'é'), L('regex', '[a-zà-ÿ]+', prio=3), L('token', '日本'), L('regex', '[一-龯]+', prio=7), L('skip', ' ')],
                    origin='fixed:modeprio'))
+    # skips whose path from the root passes through an accepting state of another token (comment introducers), followed by
+    # text that fails at once: the restart after a skip must forget the context accumulated on the way
+    out.append(Def([L('token', '-'), L('regex', '[a-z]+'), L('skip', '[ \\n]+'), L('skip', '--[ -~]*'), L('token', '/'), L('skip', '//[ -~]*'),
+                    L('token', '#!'), L('skip', '#')], origin='fixed:skip-through-token'))
     # the same text matched by two patterns, one of them only in some contexts, at different priorities
     out.append(Def([L('regex', '[a-z]+'), L('regex', 'end$', prio=100), L('token', 'a', prio=3), L('regex', 'a(?-u:\\b)', prio=10), L('skip', ' ')],
                    origin='fixed:look-prio'))
